@@ -44,3 +44,24 @@ package crypto
 //@   callsite VerifySignature requires[raw] arg2 == sig
 //@ func (*ETHSECP256K1PublicKey).VerifyBytes
 //@   callsite VerifySignature requires[raw] arg2 == sig
+
+// ---- C05: the batch verifier judges every queued tuple of the three individually verified schemes -----------------
+// tupleOK(t): the scheme's verification predicate on exactly the queued key, message and signature.
+// judged(tuples, bad): every tuple either verifies or has its batch index in the list of bad indices.
+// (the ed25519 group goes through an external batch verifier and a signature cache: not decided here)
+//@ spec func tupleOK(t BatchTuple) bool = sigVerifies(keyBytes(t.PublicKey), bytes(t.Message), bytes(t.Signature))
+//@ spec func reported(bad []int, i int) bool = exists j int :: 0 <= j && j < len(bad) && bad[j] == i
+//@ spec func judged(tuples []BatchTuple, bad []int) bool = forall k int :: 0 <= k && k < len(tuples) ==> tupleOK(tuples[k]) || reported(bad, tuples[k].index)
+// Key() only builds the cache key in a buffer of its own
+//@ func (*BatchTuple).Key
+//@   trusted
+//@   pure
+//@ func (*BatchVerifier).verifyAll$1
+//@   loop 1 invariant[judged] forall k int :: 0 <= k && k < iter ==> tupleOK(tuples[k]) || reported(badIndices, tuples[k].index)
+//@   loop 1 invariant[keeps] len(badIndices) >= old(len(badIndices)) && (forall j int :: 0 <= j && j < old(len(badIndices)) ==> badIndices[j] == old(badIndices[j]))
+//@   ensures[judged] judged(tuples, badIndices)
+//@   ensures[keeps] len(badIndices) >= old(len(badIndices)) && (forall j int :: 0 <= j && j < old(len(badIndices)) ==> badIndices[j] == old(badIndices[j]))
+//@ func (*BatchVerifier).verifyAll
+//@   ensures[bls] judged(b.bls12381[idx], badIndices)
+//@   ensures[secp] judged(b.secp256k1[idx], badIndices)
+//@   ensures[eth] judged(b.ethSecp256k1[idx], badIndices)
